@@ -38,6 +38,8 @@ PINNED_GUARDS = [
     ["precision", "lt", "scale", "ValueError"],
 ]
 PINNED_DESC = [["DECIMAL", "DECIMAL(", ",", ")"], ["ARRAY", "ARRAY<", ">"]]
+KINDS = ["array", "decimal", "varchar", "blob"]
+PINNED_MERGE = [["elem", "isNone", "elem"], ["precision", "isNone", "precision"], ["scale", "isNone", "scale"], ["length", "isNone", "length"]]
 
 CMP = {ast.Lt: "lt", ast.LtE: "le", ast.Gt: "gt", ast.GtE: "ge", ast.Eq: "eq", ast.NotEq: "ne"}
 
@@ -145,6 +147,74 @@ def _cond(test):
     return ["eq", [v for v in vals if isinstance(v, str)]]
 
 
+def rx_items(src):
+    """A pattern of the supported subset as a list of items: ["lit", ch] | ["run", atoms, min, captured]
+    (atoms: "digit" | "space" | "word" | ["ch", c]).  Supported: literal characters, and greedy unbounded
+    repeats (`+`, `*`, `{n,}`) of one class or category, bare or as the whole content of a capturing group."""
+    import re as _re
+    try:
+        import re._parser as P
+        import re._constants as K
+    except ImportError:  # pragma: no cover
+        import sre_parse as P
+        import sre_constants as K
+
+    CAT = {K.CATEGORY_DIGIT: "digit", K.CATEGORY_SPACE: "space", K.CATEGORY_WORD: "word"}
+
+    def atoms(node):
+        op, arg = node
+        if op == K.LITERAL:
+            return [["ch", chr(arg)]]
+        if op == K.IN:
+            out = []
+            for o2, a2 in arg:
+                if o2 == K.LITERAL:
+                    out.append(["ch", chr(a2)])
+                elif o2 == K.CATEGORY and a2 in CAT:
+                    out.append(CAT[a2])
+                else:
+                    raise KeyError("class member %s" % (o2,))
+            return out
+        raise KeyError("repeat of %s" % (op,))
+
+    def run(node, captured):
+        op, arg = node
+        if op != K.MAX_REPEAT:
+            raise KeyError("item %s" % (op,))
+        lo, hi, sub = arg
+        if hi != K.MAXREPEAT or len(sub) != 1:
+            raise KeyError("bounded or compound repeat")
+        return ["run", atoms(sub[0]), int(lo), captured]
+
+    parsed = P.parse(src)
+    if parsed.state.flags & ~_re.UNICODE:
+        raise KeyError("inline flags")
+    items, groups = [], 0
+    for op, arg in parsed:
+        if op == K.LITERAL:
+            items.append(["lit", chr(arg)])
+        elif op == K.SUBPATTERN:
+            g, add, dele, sub = arg
+            groups += 1
+            if g != groups or add or dele or len(sub) != 1:
+                raise KeyError("group of unknown shape")
+            items.append(run(sub[0], True))
+        else:
+            items.append(run((op, arg), False))
+    return items
+
+
+def rx_kind(items):
+    """Which of the four patterns: by the letters the pattern starts with."""
+    head = ""
+    for it in items:
+        if it[0] == "lit" and it[1].isalpha():
+            head += it[1]
+        else:
+            break
+    return {"ARRAY": "array", "DECIMAL": "decimal", "VARCHAR": "varchar", "BLOB": "blob"}.get(head)
+
+
 def _branch_of(fn, head):
     """The body of `elif parsed_types[0] == "<head>":` in from_name."""
     for n in ast.walk(fn):
@@ -163,21 +233,154 @@ def generate(o):
     # ---- the four regular expressions of _parse_type, in order
     def regexes():
         fn = types.func("_parse_type")
+        compiled = {}  # module-level NAME = re.compile(<literal>)
+        for n in types.tree.body:
+            if isinstance(n, ast.Assign) and len(n.targets) == 1 and isinstance(n.targets[0], ast.Name) \
+                    and isinstance(n.value, ast.Call) and isinstance(n.value.func, ast.Attribute) \
+                    and n.value.func.attr == "compile" and _is_name(n.value.func.value, "re"):
+                if len(n.value.args) != 1 or n.value.keywords or not isinstance(n.value.args[0], ast.Constant):
+                    raise KeyError("re.compile with flags / non-literal pattern")
+                compiled[n.targets[0].id] = n.value.args[0].value
         found = []
         for n in ast.walk(fn):
-            if isinstance(n, ast.Call) and isinstance(n.func, ast.Attribute) and n.func.attr in ("match", "fullmatch", "search") \
-                    and _is_name(n.func.value, "re") and n.args and isinstance(n.args[0], ast.Constant):
+            if not (isinstance(n, ast.Call) and isinstance(n.func, ast.Attribute)
+                    and n.func.attr in ("match", "fullmatch", "search")):
+                continue
+            if _is_name(n.func.value, "re"):
+                if len(n.args) != 2 or n.keywords or not isinstance(n.args[0], ast.Constant):
+                    raise KeyError("re.%s call with flags / non-literal pattern" % n.func.attr)
                 found.append((n.lineno, n.col_offset, n.func.attr, n.args[0].value))
+            elif isinstance(n.func.value, ast.Name) and n.func.value.id in compiled:
+                if len(n.args) != 1 or n.keywords:
+                    raise KeyError("pattern.%s call with pos/endpos" % n.func.attr)
+                found.append((n.lineno, n.col_offset, n.func.attr, compiled[n.func.value.id]))
         found.sort()
         if not found:
             raise KeyError("re.match calls")
         return [[f[2], f[3]] for f in found]
 
     rx = o.item("types.regex", regexes, [["match", r] for r in PINNED_REGEX])
-    regex_pinned = rx == [["match", r] for r in PINNED_REGEX]
-    if not regex_pinned and not any(d.startswith("types.regex") for d in o.degraded):
-        o.degraded.append("types.regex (sources differ from the ones the Lean matchers were written for: %r; "
-                          "matchers are tied by correspondence only)" % (rx,))
+    # the model interprets: the patterns themselves (items parsed from the sources), the order in which
+    # they are tried, and whether each is anchored at the start (`match`) or found anywhere (`search`)
+    pinned_items = {KINDS[i]: rx_items(r) for i, r in enumerate(PINNED_REGEX)}
+    groups_needed = {"array": 1, "decimal": 2, "varchar": 1, "blob": 1}
+    rx_by_kind = None
+    try:
+        got = {}
+        for fn_, src_ in rx:
+            if fn_ not in ("match", "search"):
+                raise KeyError("re.%s" % fn_)
+            its = rx_items(src_)
+            k = rx_kind(its)
+            if k is None or k in got or sum(1 for it in its if it[0] == "run" and it[3]) != groups_needed[k]:
+                raise KeyError("pattern %r is not one of the four" % (src_,))
+            got[k] = (fn_, its)
+        if sorted(got) != sorted(KINDS):
+            raise KeyError("patterns found: %r" % (sorted(got),))
+        rx_by_kind = got
+    except Exception as e_:
+        if not any(d.startswith("types.regex") for d in o.degraded):
+            o.degraded.append("types.regex (%s: %s; patterns pinned, tied by correspondence only)" % (type(e_).__name__, str(e_)[:80]))
+    regex_pinned = sorted(r[1] for r in rx) == sorted(PINNED_REGEX)
+    if rx_by_kind is not None:
+        parse_order = [rx_kind(rx_items(r[1])) for r in rx]
+        anchors = {k: ("atStart" if rx_by_kind[k][0] == "match" else "anywhere") for k in KINDS}
+        items = {k: rx_by_kind[k][1] for k in KINDS}
+    else:
+        parse_order = list(KINDS)
+        anchors = {k: "atStart" for k in KINDS}
+        items = pinned_items
+    o.json["types.regex_items"] = items
+    o.json["types.parse_order"] = parse_order
+    o.json["types.anchors"] = anchors
+
+    # ---- where the name is upper-cased: before `_parse_type` (from_name) and in its final return
+    def upper_flags():
+        fn = types.func("from_name", "OrsoTypes")
+
+        def is_upper_call(e):
+            return isinstance(e, ast.Call) and isinstance(e.func, ast.Attribute) and e.func.attr == "upper" \
+                and not e.args and not e.keywords
+
+        def is_name_text(e):  # `name` or `str(name)`
+            if _is_name(e, "name"):
+                return True
+            return isinstance(e, ast.Call) and _is_name(e.func, "str") and len(e.args) == 1 and _is_name(e.args[0], "name")
+
+        call = None
+        for n in ast.walk(fn):
+            if isinstance(n, ast.Call) and _is_name(n.func, "_parse_type") and len(n.args) == 1 and not n.keywords:
+                call = n
+                break
+        if call is None:
+            raise KeyError("_parse_type call")
+        arg = call.args[0]
+        if isinstance(arg, ast.Name):
+            defs = [a for a in ast.walk(fn) if isinstance(a, ast.Assign) and len(a.targets) == 1
+                    and _is_name(a.targets[0], arg.id) and a.lineno < call.lineno]
+            if len(defs) != 1:
+                raise KeyError("argument of _parse_type assigned %d times" % len(defs))
+            arg = defs[0].value
+        if is_upper_call(arg) and is_name_text(arg.func.value):
+            first = True
+        elif is_name_text(arg):
+            first = False
+        else:
+            raise KeyError("argument of _parse_type of unknown shape")
+        pt = types.func("_parse_type")
+        last = pt.body[-1]
+        if not isinstance(last, ast.Return) or last.value is None:
+            raise KeyError("_parse_type does not end in a return")
+        v = last.value
+        if is_upper_call(v) and _is_name(v.func.value, pt.args.args[0].arg):
+            second = True
+        elif _is_name(v, pt.args.args[0].arg):
+            second = False
+        else:
+            raise KeyError("final return of _parse_type of unknown shape")
+        return [first, second]
+
+    upf = o.item("types.upper_calls", upper_flags, [True, True])
+
+    # ---- the parameterised branches of from_name: which member, which slot receives the number(s)
+    LOCALS = {"_length": "length", "_precision": "precision", "_scale": "scale", "_element_type": "elem"}
+
+    def length_branches():
+        fn = types.func("from_name", "OrsoTypes")
+        out = []
+        for head in ("VARCHAR", "BLOB"):
+            body = _branch_of(fn, head)
+            member = slot = None
+            for st in body:
+                if not (isinstance(st, ast.Assign) and len(st.targets) == 1 and isinstance(st.targets[0], ast.Name)):
+                    raise KeyError("statement of unknown shape in the %s branch" % head)
+                tgt = st.targets[0].id
+                if tgt == "_type":
+                    member = _orso_attr(st.value)
+                elif tgt in LOCALS and ast.unparse(st.value) == "parsed_types[1][0]":
+                    if slot is not None:
+                        raise KeyError("two parameters in the %s branch" % head)
+                    slot = LOCALS[tgt]
+                else:
+                    raise KeyError("assignment of unknown shape in the %s branch" % head)
+            if member is None or slot in (None, "elem"):
+                raise KeyError("%s branch" % head)
+            out.append([head, member, slot])
+        return out
+
+    lb = o.item("types.length_branches", length_branches, [["VARCHAR", "VARCHAR", "length"], ["BLOB", "BLOB", "length"]])
+
+    def decimal_targets():
+        body = _branch_of(types.func("from_name", "OrsoTypes"), "DECIMAL")
+        for st in body:
+            if isinstance(st, ast.Assign) and len(st.targets) == 1 and isinstance(st.targets[0], ast.Tuple) \
+                    and ast.unparse(st.value) == "parsed_types[1]":
+                names = [LOCALS[e.id] for e in st.targets[0].elts if isinstance(e, ast.Name) and e.id in LOCALS]
+                if len(names) == 2 and len(st.targets[0].elts) == 2 and set(names) == {"precision", "scale"}:
+                    return names
+        raise KeyError("DECIMAL unpack")
+
+    dt = o.item("types.decimal_unpack", decimal_targets, ["precision", "scale"])
 
     # ---- OrsoTypes members: (name, str(value))
     def members():
@@ -333,6 +536,262 @@ def generate(o):
 
     dp = o.item("dataframe.description_formats", desc_parts, PINNED_DESC)
 
+    # ---- FlatColumn.__init__: how the parsed parameters are merged with the explicit ones
+    SELF = {"element_type": "elem", "precision": "precision", "scale": "scale", "length": "length"}
+    TUPLE_SLOTS = ["type", "length", "precision", "scale", "elem"]  # what from_name returns, in order
+
+    def _self_attr(e):
+        if isinstance(e, ast.Attribute) and _is_name(e.value, "self") and e.attr in SELF:
+            return SELF[e.attr]
+        return None
+
+    def _none_test(test, attr):
+        """`self.<attr> is None` -> isNone, `not self.<attr>` -> falsy (for the given attribute)."""
+        if isinstance(test, ast.Compare) and len(test.ops) == 1 and isinstance(test.ops[0], ast.Is) \
+                and _self_attr(test.left) == attr and isinstance(test.comparators[0], ast.Constant) \
+                and test.comparators[0].value is None:
+            return "isNone"
+        if isinstance(test, ast.UnaryOp) and isinstance(test.op, ast.Not) and _self_attr(test.operand) == attr:
+            return "falsy"
+        return None
+
+    def merge_rules():
+        fn = schema.func("__init__", "FlatColumn")
+        unpack = None
+        for n in ast.walk(fn):
+            if isinstance(n, ast.Assign) and len(n.targets) == 1 and isinstance(n.targets[0], ast.Tuple) \
+                    and isinstance(n.value, ast.Call) and ast.unparse(n.value.func) == "OrsoTypes.from_name" \
+                    and len(n.targets[0].elts) == 5:
+                unpack = [ast.unparse(e) for e in n.targets[0].elts]
+        if unpack is None or unpack[0] != "self.type":
+            raise KeyError("unpack of OrsoTypes.from_name")
+        source = {loc: TUPLE_SLOTS[i] for i, loc in enumerate(unpack)}
+        rules = []
+        for n in ast.walk(fn):
+            tgt = test = src = None
+            if isinstance(n, ast.If) and len(n.body) == 1 and not n.orelse and isinstance(n.body[0], ast.Assign) \
+                    and len(n.body[0].targets) == 1:
+                a = _self_attr(n.body[0].targets[0])
+                v = n.body[0].value
+                if a is not None and isinstance(v, ast.Name) and v.id in source:
+                    t = _none_test(n.test, a)
+                    if t is None:
+                        raise KeyError("merge test of unknown shape for " + a)
+                    tgt, test, src = a, t, source[v.id]
+            elif isinstance(n, ast.Assign) and len(n.targets) == 1 and _self_attr(n.targets[0]) is not None:
+                a = _self_attr(n.targets[0])
+                v = n.value
+                if isinstance(v, ast.BoolOp) and isinstance(v.op, ast.Or) and len(v.values) == 2 \
+                        and _self_attr(v.values[0]) == a and isinstance(v.values[1], ast.Name) and v.values[1].id in source:
+                    tgt, test, src = a, "falsy", source[v.values[1].id]
+                elif isinstance(v, ast.Name) and v.id in source and not any(
+                        isinstance(p, ast.If) and n in p.body for p in ast.walk(fn)):
+                    raise KeyError("unconditional copy of a parsed parameter")
+            if tgt is not None:
+                if (tgt == "elem") != (src == "elem") or src == "type":
+                    raise KeyError("parameter copied into a slot of another kind")
+                rules.append([tgt, test, src])
+        if sorted(r[0] for r in rules) != sorted(SELF.values()):
+            raise KeyError("merge rules found for %r" % ([r[0] for r in rules],))
+        return rules
+
+    mr = o.item("schema.merge_rules", merge_rules, PINNED_MERGE)
+
+    def decimal_defaults():
+        """[test for precision, test for scale, default precision (int or "ctx")]"""
+        fn = schema.func("__init__", "FlatColumn")
+
+        def is_decimal_test(t):
+            return isinstance(t, ast.Compare) and len(t.ops) == 1 and isinstance(t.ops[0], ast.Eq) \
+                and ast.unparse(t.left) == "self.type" and ast.unparse(t.comparators[0]) == "OrsoTypes.DECIMAL"
+
+        def default_of(e):
+            if ast.unparse(e) in ("getcontext().prec", "decimal.getcontext().prec"):
+                return "ctx"
+            if isinstance(e, ast.Constant) and isinstance(e.value, int) and not isinstance(e.value, bool):
+                return e.value
+            if isinstance(e, ast.Name):
+                for node in schema.tree.body:
+                    tgt = val = None
+                    if isinstance(node, ast.Assign) and len(node.targets) == 1:
+                        tgt, val = node.targets[0], node.value
+                    elif isinstance(node, ast.AnnAssign) and node.value is not None:
+                        tgt, val = node.target, node.value
+                    if tgt is not None and _is_name(tgt, e.id):
+                        return default_of(val) if not isinstance(val, ast.Name) else None
+            raise KeyError("default precision of unknown shape")
+
+        found = {}
+
+        def visit(stmts, under_decimal):
+            for st in stmts:
+                if isinstance(st, ast.If):
+                    tests = st.test.values if isinstance(st.test, ast.BoolOp) and isinstance(st.test.op, ast.And) else [st.test]
+                    dec = under_decimal or any(is_decimal_test(t) for t in tests)
+                    rest = [t for t in tests if not is_decimal_test(t)]
+                    if dec and len(rest) == 1:
+                        for attr in ("precision", "scale"):
+                            nt = _none_test(rest[0], attr)
+                            if nt is not None:
+                                for b in st.body:
+                                    if isinstance(b, ast.Assign) and _self_attr(b.targets[0]) == attr:
+                                        found[attr] = [nt, b.value]
+                    if dec and not rest and not st.orelse:
+                        visit(st.body, True)
+                elif under_decimal and isinstance(st, ast.Assign) and len(st.targets) == 1 and _self_attr(st.targets[0]) in ("precision", "scale"):
+                    attr = _self_attr(st.targets[0])
+                    v = st.value
+                    if isinstance(v, ast.BoolOp) and isinstance(v.op, ast.Or) and len(v.values) == 2 and _self_attr(v.values[0]) == attr:
+                        found[attr] = ["falsy", v.values[1]]
+                    else:
+                        raise KeyError("unconditional DECIMAL default")
+
+        visit(fn.body, False)
+        if set(found) != {"precision", "scale"}:
+            raise KeyError("DECIMAL defaults found for %r" % (sorted(found),))
+        sc = found["scale"][1]
+        if not (isinstance(sc, ast.Call) and _is_name(sc.func, "int") and isinstance(sc.args[0], ast.BinOp)
+                and isinstance(sc.args[0].op, ast.Mult) and ast.unparse(sc.args[0].right) == "self.precision"):
+            raise KeyError("default scale of unknown shape")
+        return [found["precision"][0], found["scale"][0], default_of(found["precision"][1])]
+
+    dd = o.item("schema.decimal_defaults", decimal_defaults, ["isNone", "isNone", "ctx"])
+    default_prec = cp if dd[2] == "ctx" else int(dd[2])
+
+    # ---- DataFrame.description: the statements that compute the type code, as a program:
+    # a list of groups (one per top-level `if`), each an if/elif/else chain of arms
+    # [cond kind, key, format kind, literal parts, assigns data_precision/data_scale]
+    def desc_program():
+        fn = frame.func("description", "DataFrame")
+        loops = [n for n in ast.walk(fn) if isinstance(n, ast.For)]
+        if len(loops) != 1:
+            raise KeyError("loops in description")
+        branch = None
+        for n in ast.walk(loops[0]):
+            if isinstance(n, ast.If) and ast.unparse(n.test) == "isinstance(self._schema, RelationSchema)":
+                branch = n.body
+        if branch is None:
+            raise KeyError("RelationSchema branch")
+        TYPE = {"column_type", "column_data.type"}
+        ELEM_SET = "column_data.element_type is not None"
+
+        def cond(test):
+            txt = ast.unparse(test)
+            if txt in ("%s is not None" % t for t in TYPE):
+                return ["typeNotNone", ""]
+            parts = test.values if isinstance(test, ast.BoolOp) and isinstance(test.op, ast.And) else [test]
+            key, elem = None, False
+            for p_ in parts:
+                if ast.unparse(p_) == ELEM_SET:
+                    elem = True
+                elif isinstance(p_, ast.Compare) and len(p_.ops) == 1 and isinstance(p_.ops[0], ast.Eq) \
+                        and ast.unparse(p_.left) in ("%s.value" % t for t in TYPE) \
+                        and isinstance(p_.comparators[0], ast.Constant) and isinstance(p_.comparators[0].value, str) and key is None:
+                    key = p_.comparators[0].value
+                else:
+                    raise KeyError("test of unknown shape: " + txt)
+            if key is None:
+                raise KeyError("test of unknown shape: " + txt)
+            return ["valueIsAndElem" if elem else "valueIs", key]
+
+        def arm(c, body):
+            fmt, params = None, set()
+            for st in body:
+                if not (isinstance(st, ast.Assign) and len(st.targets) == 1 and isinstance(st.targets[0], ast.Name)):
+                    raise KeyError("statement of unknown shape in an arm")
+                tgt, v = st.targets[0].id, st.value
+                if tgt == "data_type":
+                    if fmt is not None:
+                        raise KeyError("two type codes in one arm")
+                    if isinstance(v, ast.Call) and _is_name(v.func, "str") and ast.unparse(v.args[0]) in ("%s.value" % t for t in TYPE):
+                        fmt = ["plain", []]
+                    elif isinstance(v, ast.JoinedStr):
+                        lits, holes, cur = [], [], ""
+                        for x in v.values:
+                            if isinstance(x, ast.Constant):
+                                cur += x.value
+                            else:
+                                if x.conversion != -1 or x.format_spec is not None:
+                                    raise KeyError("formatted value with conversion")
+                                lits.append(cur)
+                                cur = ""
+                                holes.append(ast.unparse(x.value))
+                        lits.append(cur)
+                        if holes in (["data_precision", "data_scale"], ["column_data.precision", "column_data.scale"]):
+                            fmt = ["decimal", lits]
+                        elif holes == ["column_data.element_type.value"]:
+                            fmt = ["array", lits]
+                        else:
+                            raise KeyError("f-string holes %r" % (holes,))
+                    else:
+                        raise KeyError("type code of unknown shape")
+                elif tgt == "data_precision" and ast.unparse(v) == "column_data.precision":
+                    params.add("p")
+                elif tgt == "data_scale" and ast.unparse(v) == "column_data.scale":
+                    params.add("s")
+                else:
+                    raise KeyError("assignment of unknown shape in an arm")
+            if fmt is None or params not in (set(), {"p", "s"}):
+                raise KeyError("arm without a type code")
+            if fmt[0] == "decimal" and "data_precision" in ast.unparse(body[-1]) and params != {"p", "s"}:
+                raise KeyError("f-string uses locals that are not assigned")
+            return c + fmt + [params == {"p", "s"}]
+
+        groups, started = [], False
+        for st in branch:
+            txt = ast.unparse(st)
+            if not started:
+                if isinstance(st, ast.Assign) and txt.startswith("column_type = "):
+                    if ast.unparse(st.value) != "column_data.type":
+                        raise KeyError("column_type of unknown shape")
+                    started = True
+                continue
+            if isinstance(st, ast.Assign) and txt == "nullable = column_data.nullable":
+                continue
+            if not isinstance(st, ast.If):
+                raise KeyError("statement of unknown shape: " + txt[:40])
+            g, node = [], st
+            while True:
+                g.append(arm(cond(node.test), node.body))
+                if len(node.orelse) == 1 and isinstance(node.orelse[0], ast.If):
+                    node = node.orelse[0]
+                    continue
+                if node.orelse:
+                    g.append(arm(["otherwise", ""], node.orelse))
+                break
+            groups.append(g)
+        if not groups:
+            raise KeyError("no type-code statements")
+        return groups
+
+    PINNED_PROGRAM = [[["typeNotNone", "", "plain", [], False]],
+                      [["valueIs", "DECIMAL", "decimal", ["DECIMAL(", ",", ")"], True]],
+                      [["valueIsAndElem", "ARRAY", "array", ["ARRAY<", ">"], False]]]
+    prog = o.item("dataframe.description_program", desc_program, PINNED_PROGRAM)
+
+    # ---- DataFrame.description: which column an entry is built from
+    def desc_lookup():
+        fn = frame.func("description", "DataFrame")
+        loops = [n for n in ast.walk(fn) if isinstance(n, ast.For)]
+        if len(loops) != 1:
+            raise KeyError("loops in description")
+        loop = loops[0]
+        assigns = [n for n in ast.walk(loop) if isinstance(n, ast.Assign) and len(n.targets) == 1 and _is_name(n.targets[0], "column_data")]
+        if len(assigns) != 1:
+            raise KeyError("column_data assignments")
+        v = assigns[0].value
+        it = ast.unparse(loop.iter)
+        if it == "enumerate(self.column_names)" and isinstance(loop.target, ast.Tuple) and len(loop.target.elts) == 2 \
+                and all(isinstance(e, ast.Name) for e in loop.target.elts) \
+                and ast.unparse(v) == "self._schema.columns[%s]" % loop.target.elts[0].id:
+            return "byPosition"
+        if it == "self.column_names" and isinstance(loop.target, ast.Name) \
+                and ast.unparse(v) == "self._schema.find_column(%s)" % loop.target.id:
+            return "byName"
+        raise KeyError("column lookup of unknown shape")
+
+    dl = o.item("dataframe.description_lookup", desc_lookup, "byPosition")
+
     # ---------------------------------------------------------------- emit
     def cond(c):
         if c[0] == "member":
@@ -362,8 +821,64 @@ def generate(o):
     t += "structure Guard where\n  lhs : Operand\n  op : Cmp\n  rhs : Operand\n  cls : ExcClass\n  deriving Repr, DecidableEq\n\n"
     t += "/-- (re function, pattern source) of `_parse_type`, in source order -/\n"
     t += "def regexSources : List (String × String) := %s\n" % lean_list(rx, lambda p: "(%s, %s)" % (lean_str(p[0]), lean_str(p[1])))
-    t += "/-- do the sources equal the ones `Model/TypeName.lean`'s matchers were written for? -/\n"
+    t += "/-- do the sources equal the ones the reference matchers (`matchArray` …) were written for? (informational) -/\n"
     t += "def regexPinned : Bool := %s\n" % ("true" if regex_pinned else "false")
+    t += "/-- how a pattern is applied: `re.match` (at the start of the text only) or `search` (leftmost occurrence anywhere) -/\n"
+    t += "inductive Anchor where\n  | atStart\n  | anywhere\n  deriving Repr, DecidableEq\n"
+    def lean_char(c):
+        return lean_chars(c)[1:-1]
+
+    def lean_atom(a):
+        return "." + a if isinstance(a, str) else "(.ch %s)" % lean_char(a[1])
+
+    def lean_item(it):
+        if it[0] == "lit":
+            return "(.lit %s)" % lean_char(it[1])
+        return "(.run %s %d %s)" % (lean_list(it[1], lean_atom), it[2], "true" if it[3] else "false")
+
+    t += "/-- a member of a character class: `\\d`, `\\s`, `\\w` or a literal character -/\n"
+    t += "inductive Atom where\n  | digit | space | word\n  | ch (c : Char)\n  deriving Repr, DecidableEq\n"
+    t += "/-- one item of a pattern: a literal character, or a greedy unbounded repeat (at least `min`) of a class, captured as a group or not -/\n"
+    t += "inductive RItem where\n  | lit (c : Char)\n  | run (cls : List Atom) (min : Nat) (cap : Bool)\n  deriving Repr, DecidableEq\n"
+    for k in KINDS:
+        t += "/-- the %s pattern of `_parse_type`, parsed from its source -/\n" % k.upper()
+        t += "def rx%s : List RItem := %s\n" % (k.capitalize(), lean_list(items[k], lean_item))
+    t += "inductive PKind where\n  | array | decimal | varchar | blob\n  deriving Repr, DecidableEq\n"
+    t += "/-- the order in which `_parse_type` tries its four patterns -/\n"
+    t += "def parseOrder : List PKind := %s\n" % lean_list(parse_order, lambda k: "." + k)
+    for k in KINDS:
+        t += "def anchor%s : Anchor := .%s\n" % (k.capitalize(), anchors[k])
+    t += "/-- is the name upper-cased before `_parse_type` sees it (`from_name`) / in `_parse_type`'s final `return` -/\n"
+    t += "def upperInFromName : Bool := %s\ndef upperBareReturn : Bool := %s\n" % tuple("true" if b else "false" for b in upf)
+    t += "inductive Slot where\n  | length | precision | scale | elem\n  deriving Repr, DecidableEq\n"
+    t += "/-- `elif parsed_types[0] == HEAD: _type = OrsoTypes.M; _<slot> = parsed_types[1][0]`: (HEAD, M, slot) -/\n"
+    t += "def lengthBranches : List (List Char × List Char × Slot) := %s\n" % lean_list(
+        lb, lambda b: "(%s, %s, .%s)" % (lean_chars(b[0]), lean_chars(b[1]), b[2]))
+    t += "/-- the targets of `… = parsed_types[1]` in the DECIMAL branch, in order -/\n"
+    t += "def decimalTargets : List Slot := %s\n" % lean_list(dt, lambda x: "." + x)
+    t += "/-- the test that decides whether an explicit constructor argument is missing: `x is None` or `not x` / `x or …` -/\n"
+    t += "inductive NoneTest where\n  | isNone\n  | falsy\n  deriving Repr, DecidableEq\n"
+    t += "/-- `FlatColumn.__init__`: `if self.A <test>: self.A = <slot of from_name's tuple>`, in source order -/\n"
+    t += "def mergeRules : List (Slot × NoneTest × Slot) := %s\n" % lean_list(mr, lambda r: "(.%s, .%s, .%s)" % tuple(r))
+    t += "/-- the tests of the two DECIMAL defaults (precision, scale) and the default precision -/\n"
+    t += "def decimalPrecisionTest : NoneTest := .%s\ndef decimalScaleTest : NoneTest := .%s\n" % (dd[0], dd[1])
+    t += "def decimalDefaultPrecision : Nat := %d\n" % default_prec
+    def lean_arm(a):
+        ck, key, fk, lits, params = a
+        c = {"typeNotNone": ".typeNotNone", "otherwise": ".otherwise"}.get(ck) or "(.%s %s)" % (ck, lean_chars(key))
+        f = ".plain" if fk == "plain" else "(.%s %s)" % (fk, " ".join(lean_chars(x) for x in lits))
+        return "⟨%s, %s, %s⟩" % (c, f, "true" if params else "false")
+
+    t += "/-- test of one arm of the type-code statements of `DataFrame.description` -/\n"
+    t += "inductive CodeCond where\n  | typeNotNone\n  | valueIs (key : List Char)\n  | valueIsAndElem (key : List Char)\n  | otherwise\n  deriving Repr, DecidableEq\n"
+    t += "/-- the type code an arm assigns: `str(type.value)`, `f\"PRE{precision}MID{scale}POST\"`, `f\"PRE{element_type.value}POST\"` -/\n"
+    t += "inductive CodeFmt where\n  | plain\n  | decimal (pre mid post : List Char)\n  | array (pre post : List Char)\n  deriving Repr, DecidableEq\n"
+    t += "structure CodeArm where\n  cond : CodeCond\n  fmt : CodeFmt\n  setsParams : Bool\n  deriving Repr, DecidableEq\n"
+    t += "/-- the statements that compute the type code, in source order: one group per top-level `if`, each group an if/elif/else chain -/\n"
+    t += "def descProgram : List (List CodeArm) := %s\n" % lean_list(prog, lambda g: lean_list(g, lean_arm))
+    t += "/-- `DataFrame.description`: the entry of a column is built from the column in the same position, or from the first column that bears its name -/\n"
+    t += "inductive Lookup where\n  | byPosition\n  | byName\n  deriving Repr, DecidableEq\n"
+    t += "def descLookup : Lookup := .%s\n" % dl
     t += "/-- `OrsoTypes` members: (name, str(value)) -/\n"
     t += "def members : List (List Char × List Char) := %s\n" % lean_list(mem, lambda p: "(%s, %s)" % (lean_chars(p[0]), lean_chars(p[1])))
     t += "def bareChain : List (Cond × Outcome) := %s\n" % lean_list(branches, lambda b: "(%s, %s)" % (cond(b[0]), outcome(b[1])))
